@@ -896,3 +896,57 @@ func ruleSiblingAppend(c *Ctx, files func(string) bool) *RuleResult {
 	r.inst("%d functions scanned for sibling appends", nf)
 	return r
 }
+
+// ruleMakeAppend: `tmp := make([]T, n, c); x = append(tmp, old...)` - the result starts with n zero
+// values and the copied elements follow them; what was meant is make([]T, 0, c). Reported when the
+// base of an append is the result of a make with a length that is not the constant 0 and that make
+// has no other use (nobody filled the n elements in).
+func ruleMakeAppend(c *Ctx, files func(string) bool) *RuleResult {
+	r := &RuleResult{Rule: "MAKEAPPEND", Doc: "no append extends a slice freshly made with a non-zero length that nothing has filled in (make([]T, n, c) where make([]T, 0, c) is meant)", MinInst: 1}
+	nf := 0
+	for _, fn := range c.Funcs {
+		if fn.Synthetic != "" || fn.Blocks == nil || !files(c.Fset.Position(fn.Pos()).Filename) {
+			continue
+		}
+		nf++
+		for _, b := range fn.Blocks {
+			for _, in := range b.Instrs {
+				call, ok := in.(*ssa.Call)
+				if !ok {
+					continue
+				}
+				bi, isB := call.Call.Value.(*ssa.Builtin)
+				if !isB || bi.Name() != "append" || len(call.Call.Args) < 2 {
+					continue
+				}
+				mk, isMk := call.Call.Args[0].(*ssa.MakeSlice)
+				if !isMk {
+					continue
+				}
+				if k, isK := constInt(mk.Len); isK && k == 0 {
+					continue
+				}
+				uses := 0
+				if refs := mk.Referrers(); refs != nil {
+					for _, ref := range *refs {
+						if _, dbg := ref.(*ssa.DebugRef); !dbg {
+							uses++
+						}
+					}
+				}
+				if uses != 1 {
+					continue
+				}
+				src := c.srcAt(call.Pos())
+				if src == "" {
+					src = valName(call)
+				}
+				r.inst("%s: %s", c.short(fn), src)
+				r.oblig(false)
+				r.find(c.short(fn)+":"+src+" after a make with a non-zero length", c.instrPos(call), "%s: %s appends to the slice made at %s with length %s, which nothing has filled in: the result starts with that many zero values and the appended elements come after them", c.short(fn), src, c.pos(mk.Pos()), valName(mk.Len))
+			}
+		}
+	}
+	r.inst("%d functions scanned for appends to freshly made non-empty slices", nf)
+	return r
+}
